@@ -43,5 +43,5 @@ with cf.ThreadPoolExecutor(max_workers=int(os.environ.get('SENS_PAR','3'))) as e
         caught=all(('exit=1' in part) for part in res.split(' ; ')) if 'exit=' in res else False
         print(('CAUGHT ' if caught else 'MISSED ')+mid+': '+res,flush=True)
         bad+=0 if caught else 1
-sh('rm -rf /tmp/verif-sens; git -C /repo worktree prune')
+sh('rm -rf /tmp/verif-sens; git -C /repo worktree prune; /verif/clean_alt.sh')
 sys.exit(1 if bad else 0)
